@@ -50,7 +50,8 @@ def check(ctx, which=None):
     # recursion through a function literal: the literal refers to the function that encloses it
     rec = [{"name": "Retry%d" % i, "shape": "closurerec", "k": i, "origin": "rec%d" % i} for i in range(1, 4)]
     pairs.append((rec, [dict(f, name="Again%d" % (i + 1)) for i, f in enumerate(rec)]))
-    for shape, nfam in (("arith", 13), ("loop", 11), ("branch", 9), ("calls", 17 if thorough else 14)):
+    for shape, nfam in (("arith", 13), ("loop", 11), ("branch", 9), ("calls", 17 if thorough else 14),
+                        ("twoloops", 18), ("switch", 23), ("rangeloop", 16 + rng.choice([1, 3, 5, 6]))):
         fam = [{"name": "F%02d" % i, "shape": shape, "k": i, "origin": "%s%d" % (shape, i)} for i in range(1, nfam + 1)]
         extra = [{"name": "Keep1", "shape": "nested", "k": 1, "origin": "keep1"}]
         pairs.append((fam + extra, [dict(f, name="R" + f["name"][1:]) for f in fam] + extra))
